@@ -197,7 +197,7 @@ func CheckC04(r *Report) {
 	SweepV4(r, "C04", nil, true)
 	// lifting (shared with C10): all-overridden + supplemental representations of every class, and every single
 	// deviation on a sub-lattice (all classes in thorough)
-	sweepV4AllOverridden(r, r.Tier == "thorough")
+	sweepV4AllOverridden(r, r.Tier == "thorough", nil)
 	if r.Tier == "thorough" {
 		sweepV4Lift(r, 1, nil, nil)
 	} else {
